@@ -20,8 +20,50 @@ def self_name(fi: FuncInfo) -> str | None:
     return ps[0] if ps and fi.is_method and not fi.is_staticmethod and not fi.is_classmethod else None
 
 
+def field_aliases(prog: Program, m: FuncInfo, sn: str) -> dict[str, str]:
+    """locals bound (only) to `self.<field>`: `events = self._events` - a use of the local is a use of the field"""
+    binds: dict[str, list[Any]] = {}
+    for n in prog._own_nodes(m.node):
+        tv: list[tuple[ast.expr, Any]] = []
+        if isinstance(n, ast.Assign):
+            tv = [(t, n.value) for t in n.targets]
+        elif isinstance(n, ast.AnnAssign) and n.value is not None:
+            tv = [(n.target, n.value)]
+        elif isinstance(n, ast.NamedExpr):
+            tv = [(n.target, n.value)]
+        elif isinstance(n, ast.AugAssign):
+            tv = [(n.target, None)]
+        elif isinstance(n, (ast.For, ast.AsyncFor)):
+            tv = [(x, None) for x in ast.walk(n.target) if isinstance(x, ast.Name)]
+        for t, v in tv:
+            if isinstance(t, ast.Name):
+                while isinstance(v, ast.NamedExpr):
+                    v = v.value
+                binds.setdefault(t.id, []).append(v)
+    out: dict[str, str] = {}
+    for name, vals in binds.items():
+        fields = {v.attr if isinstance(v, ast.Attribute) and isinstance(v.value, ast.Name) and v.value.id == sn else None for v in vals}
+        if len(fields) == 1 and None not in fields:
+            out[name] = next(iter(fields))
+    return out
+
+
+def field_uses(prog: Program, m: FuncInfo, sn: str, fields: set[str] | None = None) -> list[tuple[ast.AST, str]]:
+    """(node, field) for every `self.<field>` and every use of a local alias of it"""
+    al = field_aliases(prog, m, sn)
+    out: list[tuple[ast.AST, str]] = []
+    for n in prog._own_nodes(m.node):
+        if isinstance(n, ast.Attribute) and isinstance(n.value, ast.Name) and n.value.id == sn:
+            if fields is None or n.attr in fields:
+                out.append((n, n.attr))
+        elif isinstance(n, ast.Name) and isinstance(n.ctx, ast.Load) and n.id in al:
+            if fields is None or al[n.id] in fields:
+                out.append((n, al[n.id]))
+    return out
+
+
 def guarded_fields(prog: Program, ci: ClassInfo, lock: str) -> set[str]:
-    """fields written (assigned or mutated in place) outside __init__"""
+    """fields written (assigned or mutated in place, directly or through a local alias) outside __init__"""
     out: set[str] = set()
     for name, m in ci.methods.items():
         if name == "__init__":
@@ -29,7 +71,12 @@ def guarded_fields(prog: Program, ci: ClassInfo, lock: str) -> set[str]:
         sn = self_name(m)
         if sn is None:
             continue
+        al = field_aliases(prog, m, sn)
         for n in prog._own_nodes(m.node):
+            if isinstance(n, ast.Call) and isinstance(n.func, ast.Attribute) and n.func.attr in MUTATORS and isinstance(n.func.value, ast.Name) and n.func.value.id in al:
+                out.add(al[n.func.value.id])
+            if isinstance(n, ast.Subscript) and isinstance(n.ctx, (ast.Store, ast.Del)) and isinstance(n.value, ast.Name) and n.value.id in al:
+                out.add(al[n.value.id])
             if isinstance(n, ast.Attribute) and isinstance(n.value, ast.Name) and n.value.id == sn and n.attr != lock:
                 if isinstance(n.ctx, (ast.Store, ast.Del)):
                     out.add(n.attr)
@@ -117,12 +164,14 @@ def run(rep: Report, prog: Program, tier: str) -> None:
             if sn is None:
                 continue
             blocks = with_lock_blocks(m, sn, lock)
-            accesses = [n for n in prog._own_nodes(m.node) if isinstance(n, ast.Attribute) and isinstance(n.value, ast.Name) and n.value.id == sn and n.attr in guarded]
+            uses = field_uses(prog, m, sn, guarded)
+            field_of = {id(n): f for n, f in uses}
+            accesses = [n for n, _f in uses]
             # parameters that alias guarded containers (CircuitBreaker._prune(bucket, ...)) are
             # covered through the call-site rule below
             outside = [n for n in accesses if not inside(n, blocks)]
             for n in accesses:
-                rep.instance("R17.1", f"{m.qual}|{n.attr}|{'locked' if n not in outside else 'unlocked'}", {"method": m.qual, "field": n.attr, "line": n.lineno} if len(rep.samples) < 15 else None)
+                rep.instance("R17.1", f"{m.qual}|{field_of[id(n)]}|{'locked' if n not in outside else 'unlocked'}", {"method": m.qual, "field": field_of[id(n)], "line": n.lineno} if len(rep.samples) < 15 else None)
             if outside:
                 helper_need[name] = outside
             for n in accesses:
@@ -165,7 +214,8 @@ def run(rep: Report, prog: Program, tier: str) -> None:
                 if name.startswith("_") and holds_lock(m, m.node):
                     rep.ok("R17.1")
                 else:
-                    rep.fail("R17.1", f"{m.qual}|{n.attr}|unlocked", f"{m.qual} accesses guarded field `{n.attr}` without holding {lock} (and not every call site of this method holds it)", where=m.where(n), function=m.qual)
+                    fld = getattr(n, "attr", None) or field_aliases(prog, m, self_name(m) or "self").get(getattr(n, "id", ""), "?")
+                    rep.fail("R17.1", f"{m.qual}|{fld}|unlocked", f"{m.qual} accesses guarded field `{fld}` without holding {lock} (and not every call site of this method holds it)", where=m.where(n), function=m.qual)
         # public methods: one critical section, result inside
         for name, m in ci.methods.items():
             if name.startswith("_") or m.is_property and name not in locking:
